@@ -11,6 +11,8 @@ CONSTANTS
   UseShield = TRUE
   SmallTakesLock = TRUE
   OvrTakesLock = TRUE
+  Mask = TRUE
+  MaskCopies = TRUE
 INVARIANT WireOrderIsCtxOrder
 INVARIANT NoCtxAdvanceWithoutFrame
 INVARIANT DecodeOK
@@ -19,6 +21,8 @@ INVARIANT ExactlyOnce
 INVARIANT ControlNeverCompressed
 INVARIANT NothingAfterClose
 INVARIANT NoDataAfterCloseOnWire
+INVARIANT PayloadIntact
+INVARIANT CallerBufferIntact
 INVARIANT LockSafety
 INVARIANT NoLostWakeup
 CHECK_DEADLOCK FALSE
